@@ -114,6 +114,16 @@ class BSLookbackOption(BSModuleMixin):
     def inputs(self) -> List[str]:
         return ["log_moneyness", "max_log_moneyness", "time_to_maturity", "volatility"]
 
+    def forward(self, input: Tensor) -> Tensor:
+        # The delta of this module is the autograd derivative of its price.
+        # Keep the graph of that derivative whenever gradients are enabled, so that
+        # a hedge ratio computed from parameter-dependent inputs can be differentiated
+        # (as it can for the modules with a closed-form delta).
+        return self.delta(
+            *(input[..., [i]] for i in range(input.size(-1))),
+            create_graph=torch.is_grad_enabled(),
+        )
+
     def price(
         self,
         log_moneyness: Optional[Tensor] = None,
@@ -443,4 +453,4 @@ factory.register_module("LookbackOption", BSLookbackOption)
 
 # Assign docstrings so they appear in Sphinx documentation
 _set_docstring(BSLookbackOption, "inputs", BSModuleMixin.inputs)
-_set_attr_and_docstring(BSLookbackOption, "forward", BSModuleMixin.forward)
+_set_docstring(BSLookbackOption, "forward", BSModuleMixin.forward)
